@@ -360,6 +360,20 @@ impl<CharIter: Iterator<Item = char>> Lexer<CharIter> {
         }
     }
 
+    fn integer_token(&self, number_literal: &str) -> Result<Option<TokenData>> {
+        match number_literal.parse::<i32>() {
+            Ok(i) => Ok(Some(TokenData::Primitive(Primitive::Integer(i)))),
+            Err(_) => located_error!(SyntaxError::UnrecognizedToken, Some(self.location)),
+        }
+    }
+
+    fn real_token(&self, number_literal: String) -> Result<Option<TokenData>> {
+        match number_literal.parse::<f64>() {
+            Ok(_) => Ok(Some(TokenData::Primitive(Primitive::Real(number_literal)))),
+            Err(_) => located_error!(SyntaxError::UnrecognizedToken, Some(self.location)),
+        }
+    }
+
     fn digital10(&mut self, number_literal: &mut String) -> Result<()> {
         loop {
             match self.peekable_char_stream.peek() {
@@ -422,45 +436,39 @@ impl<CharIter: Iterator<Item = char>> Lexer<CharIter> {
                             '0'..='9' => self.digital10(&mut number_literal)?,
                             'e' => {
                                 self.number_suffix(&mut number_literal)?;
-                                break Ok(Some(TokenData::Primitive(Primitive::Real(
-                                    number_literal,
-                                ))));
+                                break self.real_token(number_literal);
                             }
                             '.' => {
                                 self.real(&mut number_literal)?;
-                                break Ok(Some(TokenData::Primitive(Primitive::Real(
-                                    number_literal,
-                                ))));
+                                break self.real_token(number_literal);
                             }
                             '/' => {
                                 let mut denominator = String::new();
                                 self.advance(1);
                                 self.digital10(&mut denominator)?;
-                                break Ok(Some(TokenData::Primitive(Primitive::Rational(
-                                    number_literal.parse::<i32>().unwrap(),
-                                    match denominator.parse::<u32>().unwrap() {
-                                        0 => {
-                                            return located_error!(
-                                                SyntaxError::RationalDivideByZero,
-                                                Some(self.location)
-                                            )
-                                        }
-                                        other => other,
-                                    },
-                                ))));
+                                break match (
+                                    number_literal.parse::<i32>(),
+                                    denominator.parse::<u32>(),
+                                ) {
+                                    (Ok(_), Ok(0)) => located_error!(
+                                        SyntaxError::RationalDivideByZero,
+                                        Some(self.location)
+                                    ),
+                                    (Ok(a), Ok(b)) => {
+                                        Ok(Some(TokenData::Primitive(Primitive::Rational(a, b))))
+                                    }
+                                    _ => located_error!(
+                                        SyntaxError::UnrecognizedToken,
+                                        Some(self.location)
+                                    ),
+                                };
                             }
                             _ => {
                                 Self::test_delimiter(Some(self.location), *nc)?;
-                                break Ok(Some(TokenData::Primitive(Primitive::Integer(
-                                    number_literal.parse::<i32>().unwrap(),
-                                ))));
+                                break self.integer_token(&number_literal);
                             }
                         },
-                        None => {
-                            break Ok(Some(TokenData::Primitive(Primitive::Integer(
-                                number_literal.parse::<i32>().unwrap(),
-                            ))))
-                        }
+                        None => break self.integer_token(&number_literal),
                     }
                 }
             }
